@@ -148,3 +148,50 @@ def lemma_fold_schemas():
     obs.append(_ob("L-fold/point-update/base", "point update of one element (base)", [defF, defFp, agree, k >= 0], claim(z3.IntVal(0))))
     obs.append(_ob("L-fold/point-update/step", "point update of one element (step)", [defF, defFp, agree, k >= 0, n >= 0, claim(n)], claim(n + 1)))
     return obs
+
+
+# ---------------------------------------------------------------------------------------------------
+def lemma_c20_running_stats():
+    """L-C20: starting from (max, min, sum) = (0, sys.maxsize, 0) and applying the per-call update proved for
+    update_resource_stats (max' = max(max, v), min' = min(min, v), sum' = sum + v) to samples 0 <= v <= sys.maxsize,
+    after n >= 1 samples the cell holds the true maximum, minimum and sum (mean = sum / count)."""
+    M = z3.RealVal(9223372036854775807)
+    v = z3.Function("v", z3.IntSort(), z3.RealSort())
+    mx, mn, sm = (z3.Function(n_, z3.IntSort(), z3.RealSort()) for n_ in ("mx", "mn", "sm"))
+    tmax, tmin, tsum = (z3.Function(n_, z3.IntSort(), z3.RealSort()) for n_ in ("tmax", "tmin", "tsum"))
+    i, n = z3.Ints("i n")
+    rmax = lambda a, b: z3.If(a >= b, a, b)
+    rmin = lambda a, b: z3.If(a <= b, a, b)
+    dom = z3.ForAll([i], z3.Implies(i >= 0, z3.And(0 <= v(i), v(i) <= M)))
+    code = z3.And(mx(0) == 0, mn(0) == M, sm(0) == 0,
+                  z3.ForAll([i], z3.Implies(i >= 0, z3.And(mx(i + 1) == rmax(mx(i), v(i)), mn(i + 1) == rmin(mn(i), v(i)), sm(i + 1) == sm(i) + v(i)))))
+    truth = z3.And(tmax(1) == v(0), tmin(1) == v(0), tsum(1) == v(0),
+                   z3.ForAll([i], z3.Implies(i >= 1, z3.And(tmax(i + 1) == rmax(tmax(i), v(i)), tmin(i + 1) == rmin(tmin(i), v(i)), tsum(i + 1) == tsum(i) + v(i)))))
+    claim = lambda k: z3.And(mx(k) == tmax(k), mn(k) == tmin(k), sm(k) == tsum(k))
+    return [_ob("L-C20/base", "after the first sample the cell holds that sample as max, min and sum", [dom, code, truth], claim(z3.IntVal(1))),
+            _ob("L-C20/step", "one more sample keeps max/min/sum true", [dom, code, truth, n >= 1, claim(n)], claim(n + 1))]
+
+
+# ---------------------------------------------------------------------------------------------------
+def lemma_c15_pipeline_order():
+    """L-C15: with the per-call contract of PipelineManager._submit_next_stage (accept k iff k == stage_num + 1, else reject without
+    change) every stage is submitted exactly once, in order, and the pipeline is complete iff stage_num == n + 1."""
+    cur, cur2, n = z3.Ints("cur cur_n n")
+    started, started2, done, done2 = z3.Bools("started started_n done done_n")
+    sub, sub2 = z3.Function("sub", z3.IntSort(), z3.IntSort()), z3.Function("sub_n", z3.IntSort(), z3.IntSort())
+    s, k = z3.Ints("s k")
+
+    def inv(cur, started, done, sub):
+        return z3.And(n >= 1, 1 <= cur, cur <= n + 1, done == (cur == n + 1),
+                      z3.Implies(z3.Not(started), z3.And(cur == 1, z3.ForAll([s], sub(s) == 0))),
+                      z3.Implies(started, z3.ForAll([s], sub(s) == z3.If(z3.And(1 <= s, s <= cur, s <= n), 1, 0))))
+    I, I2 = inv(cur, started, done, sub), inv(cur2, started2, done2, sub2)
+    submit1 = z3.And(z3.Not(started), cur == 1, cur2 == 1, started2, done2 == done, z3.ForAll([s], sub2(s) == sub(s) + z3.If(s == 1, 1, 0)))
+    nxt_ok = z3.And(started, z3.Not(done), k == cur + 1, cur2 == k, started2, done2 == (k == n + 1),
+                    z3.ForAll([s], sub2(s) == sub(s) + z3.If(z3.And(s == k, k <= n), 1, 0)))
+    nxt_rej = z3.And(k != cur + 1, cur2 == cur, started2 == started, done2 == done, z3.ForAll([s], sub2(s) == sub(s)))
+    return [_ob("L-C15/step/submit", "stage 1 submitted once by `pipeline submit`", [I, submit1], I2),
+            _ob("L-C15/step/next", "an in-order trigger submits exactly the next stage (or completes the pipeline)", [I, nxt_ok], I2),
+            _ob("L-C15/step/rejected", "a duplicate / out-of-order trigger changes nothing", [I, nxt_rej], I2),
+            _ob("L-C15/goal/once", "no stage is ever submitted twice; stage s+1 only after stage s", [I],
+                z3.ForAll([s], z3.And(sub(s) <= 1, z3.Implies(z3.And(sub(s + 1) == 1, s >= 1), sub(s) == 1))))]
